@@ -1,6 +1,8 @@
 import ObiVerif.Model.Pcr
 import ObiVerif.Lemmas.Pcr
 import ObiVerif.Lemmas.PcrCircular
+import ObiVerif.Lemmas.PcrFrag
+import ObiVerif.Lemmas.PcrGrammar
 /-!
 # C11 — in-silico PCR returns exactly the amplicons the primers define, on either strand (property theorems)
 
@@ -443,14 +445,368 @@ example :
     cstart ⟨0, 0, true, 1, false⟩ 10 8 3 = 7 ∧ clen ⟨0, 0, true, 1, false⟩ 10 8 3 2 3 = 9 ∧
     creq ⟨0, 0, true, 2, false⟩ 10 8 3 2 3 = 11 ∧ clen ⟨0, 0, true, 2, false⟩ 10 8 3 2 3 = 1 := by decide
 
+/-! ## the options, exactly
+
+`--min-length` / `--max-length` are inclusive bounds on the number of symbols between the two sites (primers excluded), `0` =
+no bound; a pair of sites that touch or overlap is never reported. -/
+
+/-- **the length filter**: `g` symbols between the sites pass iff `g ≥ 1`, `g ≥ min` unless `min = 0`, `g ≤ max` unless
+`max = 0` — both bounds inclusive (this is the `lengthOk` of every soundness / completeness theorem above) -/
+theorem lengthOk_iff (o : Opts) (g : Int) :
+    lengthOk o g = true ↔ 1 ≤ g ∧ (o.minLength = 0 ∨ o.minLength ≤ g) ∧ (o.maxLength = 0 ∨ g ≤ o.maxLength) := by
+  unfold lengthOk
+  simp only [Bool.and_eq_true, Bool.or_eq_true, decide_eq_true_eq, beq_iff_eq]
+  constructor
+  · rintro ⟨⟨h1, h2⟩, h3⟩; exact ⟨by omega, h2, h3⟩
+  · rintro ⟨h1, h2, h3⟩; exact ⟨⟨by omega, h2⟩, h3⟩
+
+/-- a product of exactly `min` or exactly `max` symbols is kept, one of `max + 1` or `min - 1` symbols is not -/
+example : lengthOk ⟨5, 9, false, -1, false⟩ 5 = true ∧ lengthOk ⟨5, 9, false, -1, false⟩ 9 = true ∧
+    lengthOk ⟨5, 9, false, -1, false⟩ 4 = false ∧ lengthOk ⟨5, 9, false, -1, false⟩ 10 = false := by decide
+
+/-- **the flanks on a linear template** (`--delta e`): without `--only-complete-flanking` the window is
+`[max(i - e, 0), min(j + cl + e, L))` — the flanks are clipped at the ends of the template, the pair is always reported;
+with it the window is `[i - e, j + cl + e)` and the pair is reported iff that lies inside the template; without
+`--delta` the window is the segment between the sites -/
+theorem linBounds_spec (o : Opts) (L i dl j cl : Nat) :
+    (o.hasExtension = false → linBounds o L i dl j cl = some (i + dl, j)) ∧
+    (o.hasExtension = true → o.fullExtension = false →
+      linBounds o L i dl j cl = some (i - o.extension.toNat, min (j + cl + o.extension.toNat) L)) ∧
+    (o.hasExtension = true → o.fullExtension = true →
+      (o.extension.toNat ≤ i ∧ j + cl + o.extension.toNat ≤ L →
+        linBounds o L i dl j cl = some (i - o.extension.toNat, j + cl + o.extension.toNat)) ∧
+      (¬ (o.extension.toNat ≤ i ∧ j + cl + o.extension.toNat ≤ L) → linBounds o L i dl j cl = none)) := by
+  unfold linBounds
+  refine ⟨fun h => by simp [h], fun h1 h2 => by simp [h1, h2], fun h1 h2 => ⟨fun h => ?_, fun h => ?_⟩⟩
+  · simp only [h1, h2, if_true]; rw [if_pos h]
+  · simp only [h1, h2, if_true]; rw [if_neg h]
+
+/-- `CLIPCR`'s options: `-l 0` (or negative) = no lower bound; `--delta` < 0 = no flanks; the two error budgets are the
+same number; `--circular`, `--only-complete-flanking` as given -/
+theorem cliOpts_spec (mn mx delta : Int) (full circ : Bool) :
+    (cliOpts mn mx delta full circ).maxLength = mx ∧ (cliOpts mn mx delta full circ).circular = circ ∧
+    (cliOpts mn mx delta full circ).fullExtension = full ∧
+    ((cliOpts mn mx delta full circ).hasExtension = decide (0 ≤ delta)) ∧
+    (0 ≤ delta → (cliOpts mn mx delta full circ).extension = delta) ∧
+    (0 < mn → (cliOpts mn mx delta full circ).minLength = mn) ∧ (mn ≤ 0 → (cliOpts mn mx delta full circ).minLength = 0) := by
+  refine ⟨rfl, rfl, rfl, ?_, ?_, ?_, ?_⟩
+  · by_cases h : delta ≥ 0
+    · have : (0 ≤ delta) := h
+      simp only [cliOpts, Opts.hasExtension, h, if_true, decide_true, decide_eq_true_eq]; omega
+    · have : ¬ (0 ≤ delta) := h
+      simp only [cliOpts, Opts.hasExtension, h, if_false, decide_false, decide_eq_false_iff_not]; omega
+  · intro h; unfold cliOpts; simp only []; rw [if_pos (by omega)]
+  · intro h; unfold cliOpts; simp only []; rw [if_pos (by omega)]
+  · intro h; unfold cliOpts; simp only []; rw [if_neg (by omega)]
+
+/-! ## primers written with the extended grammar
+
+`MatchAt` is C10's Hamming cost over the code list of the compiled pattern: classes `[..]`, negations `!`, obligatory
+positions `#` are covered by every theorem above.  For every primer pair written in the documented grammar (`Tok`, `patStr`:
+`['!'] (Letter | '[' Letter+ ']') ['#']`, 1..63 positions) the hypotheses `PrimersOk` and `PrimersMirror` hold
+(`mkPrimers_grammar`, from C10's `complement_mirror`), so that strand symmetry is unconditional: -/
+
+/-- **strand symmetry for every primer pair of the grammar** (linear template over the IUPAC symbols): the options never
+end in `log.Fatalf`, and the PCR of the reverse complement is the PCR of the template with the direction flipped -/
+theorem pcr_strand_symmetry_grammar (tf tr : List Tok) (hf : ∀ t ∈ tf, t.WF) (hr : ∀ t ∈ tr, t.WF)
+    (hfn : tf ≠ []) (hrn : tr ≠ []) (hfl : tf.length ≤ 63) (hrl : tr.length ≤ 63) (ef er : Nat)
+    (o : Opts) (hc : o.circular = false) (seq : Bytes) (hs : ∀ b ∈ seq, b ∈ iupac) :
+    ∃ P l l', mkPrimers (patStr tf) (patStr tr) ef er = some P ∧ pcr P o seq = .ok l ∧ pcr P o (SeqOps.rc seq) = .ok l' ∧
+      l'.Perm (l.map (flipAmp seq.length)) ∧
+      (l'.map obs).Perm (l.map fun a => (!a.isForward, a.seq, a.fmatch, a.ferr, a.rmatch, a.rerr)) := by
+  obtain ⟨P, hP, hok, hmir, _⟩ := mkPrimers_grammar tf tr hf hr hfn hrn hfl hrl ef er
+  obtain ⟨l, hl⟩ := pcr_total P hok o hc seq
+  obtain ⟨l', hl'⟩ := pcr_total P hok o hc (SeqOps.rc seq)
+  exact ⟨P, l, l', hP, hl, hl', pcr_strand_symmetry P hok hmir o hc seq hs l l' hl hl',
+    pcr_strand_symmetry_obs P hok hmir o hc seq hs l l' hl hl'⟩
+
+/-- … and on a circular template of at least 64 symbols -/
+theorem pcr_strand_symmetry_circular_grammar (tf tr : List Tok) (hf : ∀ t ∈ tf, t.WF) (hr : ∀ t ∈ tr, t.WF)
+    (hfn : tf ≠ []) (hrn : tr ≠ []) (hfl : tf.length ≤ 63) (hrl : tr.length ≤ 63) (ef er : Nat)
+    (o : Opts) (hc : o.circular = true) (seq : Bytes) (hs : ∀ b ∈ seq, b ∈ iupac) (h64 : 64 ≤ seq.length) :
+    ∃ P l l', mkPrimers (patStr tf) (patStr tr) ef er = some P ∧ pcr P o seq = .ok l ∧ pcr P o (SeqOps.rc seq) = .ok l' ∧
+      l'.Perm (l.map (flipC seq.length)) ∧
+      (l'.map obs).Perm (l.map fun a => (!a.isForward, a.seq, a.fmatch, a.ferr, a.rmatch, a.rerr)) := by
+  obtain ⟨P, hP, hok, hmir, _⟩ := mkPrimers_grammar tf tr hf hr hfn hrn hfl hrl ef er
+  have hL := primersFit_of_64 P hok seq.length h64
+  have hL' : PrimersFit P (SeqOps.rc seq).length := by rw [rc_length]; exact hL
+  obtain ⟨l, hl⟩ := pcr_total_circular P hok o hc seq hL
+  obtain ⟨l', hl'⟩ := pcr_total_circular P hok o hc (SeqOps.rc seq) hL'
+  exact ⟨P, l, l', hP, hl, hl', pcr_strand_symmetry_circular P hok hmir o hc seq hs hL l l' hl hl',
+    pcr_strand_symmetry_circular_obs P hok hmir o hc seq hs hL l l' hl hl'⟩
+
+/-- non-vacuity: the primers `A#CGTA` / `GG[AT]!TC` are in the grammar (an obligatory position, a class, a negation) -/
+example : ∃ tf tr : List Tok, (∀ t ∈ tf, t.WF) ∧ (∀ t ∈ tr, t.WF) ∧ tf ≠ [] ∧ tr ≠ [] ∧ tf.length ≤ 63 ∧ tr.length ≤ 63 ∧
+    patStr tf = [65, 35, 67, 71, 84, 65] ∧ patStr tr = [71, 71, 91, 65, 84, 93, 33, 84, 67] :=
+  ⟨[⟨false, false, [65], true⟩, ⟨false, false, [67], false⟩, ⟨false, false, [71], false⟩, ⟨false, false, [84], false⟩,
+     ⟨false, false, [65], false⟩],
+   [⟨false, false, [71], false⟩, ⟨false, false, [71], false⟩, ⟨false, true, [65, 84], false⟩, ⟨true, false, [84], false⟩,
+     ⟨false, false, [67], false⟩],
+   (by intro t ht
+       simp only [List.mem_cons, List.not_mem_nil, or_false] at ht
+       rcases ht with rfl | rfl | rfl | rfl | rfl <;> exact ⟨by decide, by decide, by decide⟩),
+   (by intro t ht
+       simp only [List.mem_cons, List.not_mem_nil, or_false] at ht
+       rcases ht with rfl | rfl | rfl | rfl | rfl <;> exact ⟨by decide, by decide, by decide⟩),
+   by decide, by decide, by decide, by decide, by decide, by decide⟩
+
+/-! ## circular templates: the window the options ask for
+
+`pcr_sound_circular` says what the code returns: `clen` symbols from `cstart`, where `clen` is the requested number `creq`
+**modulo the length of the circle**.  The property wants "flanks added as requested":
+
+    FULL STATEMENT (false for the code as it is): every reported record carries the `creq` symbols read clockwise from
+    `cstart`, i.e. the two sites, what lies between them and `e` symbols on each side.
+
+It holds whenever the request fits in one turn (`pcr_circular_window_partial`, hypothesis `creq ≤ L`, decidable); when the
+two flanks meet behind the product (`creq > L`) `Subsequence` silently returns `creq - L` symbols, which do not even
+contain the two sites (`pcr_circular_window_counterexample`; harness signature `pcr.circ.overlong-window`, proposed
+finding `C11-circular-window-longer-than-circle`). -/
+
+/-- **the window of a circular record is the requested one when it fits in one turn** (`_partial`: hypothesis
+`creq ≤ L` on the pair) -/
+theorem pcr_circular_window_partial (P : Primers) (hP : PrimersOk P) (o : Opts) (hc : o.circular = true) (seq : Bytes)
+    (hL : PrimersFit P seq.length) (l : List Amplicon) (h : pcr P o seq = .ok l) (x : Amplicon) (hx : x ∈ l) :
+    (∃ i ki j kj, CMatchAt P.forward (enc seq) i ki ∧ CMatchAt P.crev (enc seq) j kj ∧
+        (creq o seq.length i P.forward.patlen j P.crev.patlen ≤ seq.length →
+          ∃ n : Nat, (n : Int) = creq o seq.length i P.forward.patlen j P.crev.patlen ∧
+            x = mkAmpC true seq i ki j kj P.forward.patlen P.crev.patlen (cstart o seq.length i P.forward.patlen) n)) ∨
+    (∃ i ki j kj, CMatchAt P.reverse (enc seq) i ki ∧ CMatchAt P.cfwd (enc seq) j kj ∧
+        (creq o seq.length i P.reverse.patlen j P.cfwd.patlen ≤ seq.length →
+          ∃ n : Nat, (n : Int) = creq o seq.length i P.reverse.patlen j P.cfwd.patlen ∧
+            x = mkAmpC false seq i ki j kj P.reverse.patlen P.cfwd.patlen (cstart o seq.length i P.reverse.patlen) n)) := by
+  have key : ∀ (L i dl j cl : Nat), lengthOk o (cgap L i dl j) = true → creq o L i dl j cl ≤ L →
+      ((clen o L i dl j cl : Nat) : Int) = creq o L i dl j cl := by
+    intro L i dl j cl hl hle
+    apply clen_of_le o L i dl j cl _ hle
+    have := lengthOk_pos o _ hl
+    unfold creq
+    split
+    · rename_i hx
+      have : o.extension > -1 := by simpa [Opts.hasExtension] using hx
+      omega
+    · omega
+  rcases pcr_sound_circular P hP o hc seq hL l h x hx with ⟨i, ki, j, kj, h1, h2, h3, _, h5⟩ | ⟨i, ki, j, kj, h1, h2, h3, _, h5⟩
+  · exact Or.inl ⟨i, ki, j, kj, h1, h2, fun hle => ⟨_, key _ _ _ _ _ h3 hle, h5⟩⟩
+  · exact Or.inr ⟨i, ki, j, kj, h1, h2, fun hle => ⟨_, key _ _ _ _ _ h3 hle, h5⟩⟩
+
+/-- **counterexample to the full statement**: circle `gttccaatac` (10 symbols), primers ACG / GGA, flanks of 2 symbols: the
+sites ACG at 8 and TCC at 2 are one symbol apart, the request is 1 + 3 + 3 + 2·2 = 11 symbols > 10, and the reported
+"amplicon with its flanks" is the single symbol `a` at position 6 — it contains neither site (test by evaluation of the
+model; the same record is returned by the real code: corpus case of the harness) -/
+theorem pcr_circular_window_counterexample :
+    creq ⟨0, 0, true, 2, false⟩ 10 8 3 2 3 = 11 ∧
+    (match pcr exPrimers ⟨0, 0, true, 2, false⟩ [103, 116, 116, 99, 99, 97, 97, 116, 97, 99] with
+     | .ok l => l.map obs == [(true, [97], [97, 99, 103], 0, [103, 103, 97], 0)]
+     | _ => false) = true := by decide
+
+/-! ## fragmented search (`obipcr --fragmented`: `IFragments` then `_PCRSlice` over the pieces)
+
+`fragments minsize length overlap L = some (some ps)`: the template is longer than `minsize` and is cut into the pieces
+`ps` (`[a, b)`, consecutive pieces share `overlap` symbols, the last one absorbs a remainder shorter than the step).
+`pcrL` is the list `_Pcr` returns (it always returns on a linear template, `pcrL_spec`); `shiftAmp a y` is the record `y` of
+the piece starting at `a` seen in the coordinates of the template.  `o.flank` is the `--delta` (0 without). -/
+
+/-- `pcrL` is what `_Pcr` returns -/
+theorem pcrL_eq (P : Primers) (hP : PrimersOk P) (o : Opts) (hc : o.circular = false) (seq : Bytes) :
+    pcr P o seq = .ok (pcrL P o seq) := pcrL_spec P hP o hc seq
+
+/-- **one piece, no flanks or only complete flanks**: the records of the piece `[a, b)` are exactly the records of the
+template whose two sites and window lie inside `[a, b)`, coordinates relative to the piece -/
+theorem pcr_piece_iff (P : Primers) (hP : PrimersOk P) (o : Opts) (hc : o.circular = false)
+    (hm : o.hasExtension = false ∨ o.fullExtension = true) (seq : Bytes) (a b : Nat) (hab : a ≤ b) (hb : b ≤ seq.length)
+    (x : Amplicon) :
+    (∃ y ∈ pcrL P o (seg seq a b), shiftAmp a y = x) ↔ x ∈ pcrL P o seq ∧ (a : Int) ≤ ampLo x ∧ ampHi x ≤ b := by
+  simp only [mem_pcrL_iff P hP o hc]
+  constructor
+  · rintro ⟨y, hy | hy, rfl⟩
+    · have := block_of_piece true _ _ hP.forward hP.crev _ _ (Int.natCast_nonneg _) o hc hm seq a b hab hb y hy
+      exact ⟨Or.inl this.1, this.2⟩
+    · have := block_of_piece false _ _ hP.reverse hP.cfwd _ _ (Int.natCast_nonneg _) o hc hm seq a b hab hb y hy
+      exact ⟨Or.inr this.1, this.2⟩
+  · rintro ⟨hx | hx, h1, h2⟩
+    · obtain ⟨y, hy, he⟩ := block_to_piece true _ _ hP.forward hP.crev _ _ (Int.natCast_nonneg _) o hc seq a b hb x hx h1 h2
+      exact ⟨y, Or.inl hy, he⟩
+    · obtain ⟨y, hy, he⟩ := block_to_piece false _ _ hP.reverse hP.cfwd _ _ (Int.natCast_nonneg _) o hc seq a b hb x hx h1 h2
+      exact ⟨y, Or.inr hy, he⟩
+
+/-- **one piece, every linear mode (clipped flanks included)**: a record of the template that lies inside the piece is
+reported for the piece -/
+theorem pcr_piece_complete (P : Primers) (hP : PrimersOk P) (o : Opts) (hc : o.circular = false)
+    (seq : Bytes) (a b : Nat) (hb : b ≤ seq.length) (x : Amplicon)
+    (hx : x ∈ pcrL P o seq) (h1 : (a : Int) ≤ ampLo x) (h2 : ampHi x ≤ b) :
+    ∃ y ∈ pcrL P o (seg seq a b), shiftAmp a y = x := by
+  simp only [mem_pcrL_iff P hP o hc] at hx ⊢
+  rcases hx with hx | hx
+  · obtain ⟨y, hy, he⟩ := block_to_piece true _ _ hP.forward hP.crev _ _ (Int.natCast_nonneg _) o hc seq a b hb x hx h1 h2
+    exact ⟨y, Or.inl hy, he⟩
+  · obtain ⟨y, hy, he⟩ := block_to_piece false _ _ hP.reverse hP.cfwd _ _ (Int.natCast_nonneg _) o hc seq a b hb x hx h1 h2
+    exact ⟨y, Or.inr hy, he⟩
+
+/-- **one piece, flanks that may be clipped** (`--delta` without `--only-complete-flanking`; the open finding
+`C11-frag-clipped-flank`, stated exactly): a record `y` of the piece comes from a pair of sites for which the template
+reports a record `x` with the same direction, matched strings and error counts; the window of `y` is contained in the
+window of `x`, and `y` IS `x` unless an end of the piece that is not an end of the template clipped a flank -/
+theorem pcr_piece_clipped (P : Primers) (hP : PrimersOk P) (o : Opts) (hc : o.circular = false)
+    (hx : o.hasExtension = true) (hf : o.fullExtension = false) (seq : Bytes) (a b : Nat) (hab : a ≤ b) (hb : b ≤ seq.length)
+    (y : Amplicon) (hy : y ∈ pcrL P o (seg seq a b)) :
+    ∃ x ∈ pcrL P o seq, x.hitD = shiftHit a y.hitD ∧ x.hitC = shiftHit a y.hitC ∧ x.isForward = y.isForward ∧
+      x.fmatch = y.fmatch ∧ x.ferr = y.ferr ∧ x.rmatch = y.rmatch ∧ x.rerr = y.rerr ∧
+      x.idFrom ≤ y.idFrom + a ∧ y.idTo + a ≤ x.idTo ∧
+      ((o.extension ≤ y.hitD.1 ∨ a = 0) → (y.hitC.2.1 + o.extension + a ≤ b ∨ b = seq.length) → x = shiftAmp a y) := by
+  simp only [mem_pcrL_iff P hP o hc] at hy ⊢
+  rcases hy with hy | hy
+  · obtain ⟨x, h1, h2⟩ := block_of_piece_clipped true _ _ hP.forward hP.crev _ _ (Int.natCast_nonneg _) o hc hx hf seq a b hab hb y hy
+    exact ⟨x, Or.inl h1, h2⟩
+  · obtain ⟨x, h1, h2⟩ := block_of_piece_clipped false _ _ hP.reverse hP.cfwd _ _ (Int.natCast_nonneg _) o hc hx hf seq a b hab hb y hy
+    exact ⟨x, Or.inr h1, h2⟩
+
+/-- **Completeness of the fragmented search, with the exact arithmetic condition** (every linear mode): if two consecutive
+pieces share at least `max length + both sites + both flanks − 1` symbols, every amplicon of the template is reported for
+at least one piece.  (`overlap ≥ 0`, `max length > 0`: always so in `CLIPCR`.) -/
+theorem pcr_fragmented_complete (P : Primers) (hP : PrimersOk P) (o : Opts) (hc : o.circular = false) (hmax : o.maxLength > 0)
+    (seq : Bytes) (minsize length overlap : Int) (ps : List (Nat × Nat))
+    (hfr : fragments minsize length overlap seq.length = some (some ps)) (hov : 0 ≤ overlap)
+    (hw1 : o.maxLength + P.forward.patlen + P.crev.patlen + 2 * o.flank ≤ overlap + 1)
+    (hw2 : o.maxLength + P.reverse.patlen + P.cfwd.patlen + 2 * o.flank ≤ overlap + 1)
+    (x : Amplicon) (hx : x ∈ pcrL P o seq) :
+    ∃ p ∈ ps, ∃ y ∈ pcrL P o (seg seq p.1 p.2), shiftAmp p.1 y = x := by
+  simp only [mem_pcrL_iff P hP o hc] at hx ⊢
+  rcases hx with hx | hx
+  · obtain ⟨p, hp, y, hy, he⟩ := block_frag_complete true _ _ hP.forward hP.crev _ _ (Int.natCast_nonneg _) o hc hmax seq
+      minsize length overlap ps hfr hov hw1 x hx
+    exact ⟨p, hp, y, Or.inl hy, he⟩
+  · obtain ⟨p, hp, y, hy, he⟩ := block_frag_complete false _ _ hP.reverse hP.cfwd _ _ (Int.natCast_nonneg _) o hc hmax seq
+      minsize length overlap ps hfr hov hw2 x hx
+    exact ⟨p, hp, y, Or.inr hy, he⟩
+
+/-- **The fragmented search returns exactly the amplicons of the template** (as a set, coordinates of the template; no
+flanks or only complete flanks): `union over the pieces of their amplicons = amplicons of the whole template`, under the
+overlap condition of `pcr_fragmented_complete`. -/
+theorem pcr_fragmented (P : Primers) (hP : PrimersOk P) (o : Opts) (hc : o.circular = false)
+    (hm : o.hasExtension = false ∨ o.fullExtension = true) (hmax : o.maxLength > 0)
+    (seq : Bytes) (minsize length overlap : Int) (ps : List (Nat × Nat))
+    (hfr : fragments minsize length overlap seq.length = some (some ps)) (hov : 0 ≤ overlap)
+    (hw1 : o.maxLength + P.forward.patlen + P.crev.patlen + 2 * o.flank ≤ overlap + 1)
+    (hw2 : o.maxLength + P.reverse.patlen + P.cfwd.patlen + 2 * o.flank ≤ overlap + 1) (x : Amplicon) :
+    x ∈ pcrL P o seq ↔ ∃ p ∈ ps, ∃ y ∈ pcrL P o (seg seq p.1 p.2), shiftAmp p.1 y = x := by
+  constructor
+  · exact pcr_fragmented_complete P hP o hc hmax seq minsize length overlap ps hfr hov hw1 hw2 x
+  · rintro ⟨p, hp, y, hy, rfl⟩
+    simp only [mem_pcrL_iff P hP o hc] at hy ⊢
+    rcases hy with hy | hy
+    · exact Or.inl (block_frag_sound true _ _ hP.forward hP.crev _ _ (Int.natCast_nonneg _) o hc hm seq minsize length overlap
+        ps hfr hov p hp y hy)
+    · exact Or.inr (block_frag_sound false _ _ hP.reverse hP.cfwd _ _ (Int.natCast_nonneg _) o hc hm seq minsize length overlap
+        ps hfr hov p hp y hy)
+
+/-- **Duplicates of the fragmented search are exactly the amplicons lying inside an overlap** (there is no
+de-duplication in `CLIPCR`): an amplicon of the template is reported for the two pieces `p` and `q` iff its two sites and
+its window lie inside both, i.e. inside `[max p.1 q.1, min p.2 q.2)`; each piece reports it at most once (`pcr_nodup`). -/
+theorem pcr_fragment_duplicates (P : Primers) (hP : PrimersOk P) (o : Opts) (hc : o.circular = false)
+    (hm : o.hasExtension = false ∨ o.fullExtension = true) (seq : Bytes) (p q : Nat × Nat)
+    (hp : p.1 ≤ p.2 ∧ p.2 ≤ seq.length) (hq : q.1 ≤ q.2 ∧ q.2 ≤ seq.length) (x : Amplicon) :
+    ((∃ y ∈ pcrL P o (seg seq p.1 p.2), shiftAmp p.1 y = x) ∧ (∃ y ∈ pcrL P o (seg seq q.1 q.2), shiftAmp q.1 y = x)) ↔
+      x ∈ pcrL P o seq ∧ ((max p.1 q.1 : Nat) : Int) ≤ ampLo x ∧ ampHi x ≤ (min p.2 q.2 : Nat) := by
+  rw [pcr_piece_iff P hP o hc hm seq p.1 p.2 hp.1 hp.2, pcr_piece_iff P hP o hc hm seq q.1 q.2 hq.1 hq.2]
+  constructor
+  · rintro ⟨⟨h1, h2, h3⟩, _, h5, h6⟩; exact ⟨h1, by omega, by omega⟩
+  · rintro ⟨h1, h2, h3⟩; exact ⟨⟨h1, by omega, by omega⟩, h1, by omega, by omega⟩
+
+/-- the pieces of a template: non-empty intervals of the template -/
+theorem fragments_pieces (minsize length overlap : Int) (len : Nat) (ps : List (Nat × Nat))
+    (hfr : fragments minsize length overlap len = some (some ps)) (hov : 0 ≤ overlap) :
+    ∀ p ∈ ps, p.1 < p.2 ∧ p.2 ≤ len := by
+  obtain ⟨_, hst, hloop⟩ := fragments_inv minsize length overlap len ps hfr
+  intro p hp
+  exact (fragLoop_pieces len length.toNat (length - overlap).toNat (by omega) _ 0 ps hloop p hp).2
+
+/-- `IFragments` terminates on a template longer than `minsize` as soon as `overlap < length` (otherwise its loop does not
+advance: the model says `none`, the driver `bad-op`) -/
+theorem fragments_total (minsize length overlap : Int) (len : Nat) (hm : minsize < len) (hst : overlap < length) :
+    ∃ ps, fragments minsize length overlap len = some (some ps) := by
+  obtain ⟨ps, h, _⟩ := fragments_some minsize length overlap len hm (by omega)
+  exact ⟨ps, h⟩
+
+/-- **`obipcr --fragmented` with the repaired overlap** (patch `C11-fragment-overlap`), primers of the grammar, no `--delta` or
+`--only-complete-flanking`: with the parameters `CLIPCR` gives to `IFragments` (pieces of `100·L`, overlap
+`L + len(forward) + len(reverse) + 2·delta` — lengths of the primer *strings*, at least the numbers of positions), the
+union of the amplicons of the pieces is the set of amplicons of the template.  Hypothesis `overlap < 100·L`: otherwise
+`IFragments` does not advance. -/
+theorem cli_fragmented (tf tr : List Tok) (hf : ∀ t ∈ tf, t.WF) (hr : ∀ t ∈ tr, t.WF)
+    (hfn : tf ≠ []) (hrn : tr ≠ []) (hfl : tf.length ≤ 63) (hrl : tr.length ≤ 63) (e : Nat)
+    (mn mx delta : Int) (full : Bool) (hmx : 0 < mx) (hm : delta < 0 ∨ full = true) (seq : Bytes)
+    (hlong : mx * 1000 < seq.length)
+    (hstep : (cliFragParams mx (patStr tf).length (patStr tr).length delta).2.2 < mx * 100) :
+    ∃ P ps, mkPrimers (patStr tf) (patStr tr) e e = some P ∧
+      fragments (cliFragParams mx (patStr tf).length (patStr tr).length delta).1
+        (cliFragParams mx (patStr tf).length (patStr tr).length delta).2.1
+        (cliFragParams mx (patStr tf).length (patStr tr).length delta).2.2 seq.length = some (some ps) ∧
+      ∀ x, x ∈ pcrL P (cliOpts mn mx delta full false) seq ↔
+        ∃ p ∈ ps, ∃ y ∈ pcrL P (cliOpts mn mx delta full false) (seg seq p.1 p.2), shiftAmp p.1 y = x := by
+  obtain ⟨P, hP, hok, _, l1, l2, l3, l4, _⟩ := mkPrimers_grammar tf tr hf hr hfn hrn hfl hrl e e
+  have g1 := patStr_length_ge tf hf
+  have g2 := patStr_length_ge tr hr
+  obtain ⟨ps, hps⟩ := fragments_total (cliFragParams mx (patStr tf).length (patStr tr).length delta).1
+    (cliFragParams mx (patStr tf).length (patStr tr).length delta).2.1
+    (cliFragParams mx (patStr tf).length (patStr tr).length delta).2.2 seq.length hlong hstep
+  refine ⟨P, ps, hP, hps, ?_⟩
+  have hopt : (cliOpts mn mx delta full false).hasExtension = false ∨ (cliOpts mn mx delta full false).fullExtension = true := by
+    rcases hm with hm | hm
+    · left
+      rw [(cliOpts_spec mn mx delta full false).2.2.2.1]
+      simp; omega
+    · right; exact hm
+  have hflank : (cliOpts mn mx delta full false).flank = if delta ≥ 0 then delta else 0 := by
+    unfold Opts.flank
+    rw [(cliOpts_spec mn mx delta full false).2.2.2.1]
+    by_cases h : delta ≥ 0
+    · rw [if_pos (by simpa using h), if_pos h, (cliOpts_spec mn mx delta full false).2.2.2.2.1 (by omega)]
+    · rw [if_neg (by simpa using h), if_neg h]
+  have hov : 0 ≤ (cliFragParams mx (patStr tf).length (patStr tr).length delta).2.2 := by
+    unfold cliFragParams; simp only []; split <;> omega
+  intro x
+  apply pcr_fragmented P hok _ rfl hopt hmx seq _ _ _ ps hps hov
+  · rw [hflank, l1, l4]; unfold cliFragParams; simp only [cliOpts]; split <;> omega
+  · rw [hflank, l3, l2]; unfold cliFragParams; simp only [cliOpts]; split <;> omega
+
+/-- **the overlap bound is exact** (test by evaluation): pieces of 10 symbols sharing 4 (step 6) of a template of 30: the
+window `[5, 11)` of 6 = overlap + 2 symbols lies inside no piece (while every window of 5 does: `fragLoop_cover`); and the
+former overlap of `CLIPCR` (`L + max(lf, lr) + min(lf, lr)/2` = 4 + 7 + 2 = 13 for `-L 4`, primers of 7 and 5 positions) is
+smaller than the longest product (16): the product `[386, 402)` of a template of 4001 symbols lies inside no piece -/
+theorem overlap_bound_exact :
+    (fragments 20 10 4 30 = some (some [(0, 10), (6, 16), (12, 22), (18, 30)]) ∧
+      ∀ p ∈ [(0, 10), (6, 16), (12, 22), (18, 30)], ¬ (p.1 ≤ 5 ∧ 11 ≤ p.2)) ∧
+    ((fragments 4000 400 13 4001).map (·.map fun ps => ps.take 3) = some (some [(0, 400), (387, 787), (774, 1174)]) ∧
+      ∀ p ∈ [(0, 400), (387, 787), (774, 1174)], ¬ (p.1 ≤ 386 ∧ 402 ≤ p.2)) := by decide
+
+/-- the template of the next example: three copies of `tacgttccaa` -/
+def exTpl3 : Bytes := [116, 97, 99, 103, 116, 116, 99, 99, 97, 97, 116, 97, 99, 103, 116, 116, 99, 99, 97, 97,
+  116, 97, 99, 103, 116, 116, 99, 99, 97, 97]
+
+/-- non-vacuity of the fragment theorems (test by evaluation): three copies of `tacgttccaa`, primers ACG / GGA, `-L 1`; pieces
+`[0, 20)` and `[6, 30)` (length 20, overlap 14 ≥ 1 + 3 + 3 − 1). The template has the amplicons at 5, 15 and 25; the one at 15
+(sites and window `[11, 18)`) lies inside both pieces and is reported by both, the two others by one piece each -/
+example :
+    fragments 10 20 14 30 = some (some [(0, 20), (6, 30)]) ∧
+    (pcrL exPrimers ⟨0, 1, false, -1, false⟩ exTpl3).map (fun x => (x.idFrom, ampLo x, ampHi x)) =
+      [(5, 1, 8), (15, 11, 18), (25, 21, 28)] ∧
+    (pcrL exPrimers ⟨0, 1, false, -1, false⟩ (seg exTpl3 0 20)).map (fun x => (shiftAmp 0 x).idFrom) = [5, 15] ∧
+    (pcrL exPrimers ⟨0, 1, false, -1, false⟩ (seg exTpl3 6 30)).map (fun x => (shiftAmp 6 x).idFrom) = [15, 25] := by decide
+
 /-!
 ## what is left
 
 * the circular theorems hold for primers that fit in the template (`PrimersFit`, e.g. every template of at least 64 symbols);
   a circular template shorter than a primer is outside the domain of the matcher model (C10 note: the C encoder reads 64
   symbols whatever the length);
-* `PrimersMirror` (the complemented patterns carry the mirrored code lists) is a hypothesis of the strand-symmetry theorems,
-  checked by C10's oracle on every complemented pattern;
+* `PrimersMirror` (the complemented patterns carry the mirrored code lists) is a hypothesis of the general strand-symmetry
+  theorems; it is discharged for every primer pair written in the documented grammar (`pcr_strand_symmetry_grammar`,
+  `pcr_strand_symmetry_circular_grammar`);
+* a circular window (sites + flanks) longer than the circle: the code returns it modulo the length
+  (`pcr_circular_window_counterexample`), proposed finding;
+* `obipcr --fragmented --circular` searches every (linear) piece as a circle: modelled as it is (driver op `cli`), shown by the
+  harness oracle (`cli.circular-fragments`), proposed finding; `--fragmented` with clipped flanks: `pcr_piece_clipped`;
 * `pcr_rotation` is stated on sets of observable amplicons and, record by record, with shifted coordinates
   (`pcr_rotation_mem`); the circular theorems are about the model as repaired (patches `C11-reverse-block-circular-length`,
   `C11-circular-overlap-across-origin`, `C11-circular-extension-before-origin`).
